@@ -77,6 +77,12 @@ fixed("C10", "nodes-param-on-scalar-child", "1a173fd", "count(@) / value(@) / a 
 # ---- C09
 fixed("C09", "escaped-control", "1c29a0f", "$['\\u0000'] .. $['\\u001f'] were rejected although valid", {"module": "vtools.props.c09", "func": "r_hex", "args": {"digits": "0000"}})
 fixed("C09", "escaped-control-1f", "1c29a0f", "$['\\u001F'] was rejected", {"module": "vtools.props.c09", "func": "r_hex", "args": {"digits": "001F"}})
+# ---- C11
+fixed("C11", "search-version1-flag", "a16ddc1", "search() alone passed regex.VERSION1 (set operators inside classes): search(@, '[a||b]') did not find '|' while match() did",
+      {"module": "vtools.props.c11", "func": "r_dot", "args": {}})
+# ---- C18
+fixed("C18", "nondeterministic-depth-check", "6df72eb", "nondeterministic descent raised JSONPathRecursionError for data nested exactly max_recursion_depth deep on some random outcomes (scalars counted, '>=') and missed too-deep containers visited immediately",
+      {"module": "vtools.props.c18", "func": "r_limit", "args": {"limit": 3, "doc": [[[1]]], "mode": "nondet", "tapes": 64}})
 # ---- C12
 fixed("C12", "negated-comparison-parens", "0cefc1d", "$[?!(@.a == 1)] was serialized as $[?!@['a'] == 1] (a different, invalid query); !(!@.a) as !!@['a']", hole("$[?!(@.a == 1)]", "roundtrip"))
 fixed("C12", "double-negation-parens", "0cefc1d", "$[?!(!@.a)] was serialized as $[?!!@['a']]", hole("$[?!(!@.a)]", "roundtrip"))
